@@ -130,12 +130,58 @@ def run_case(case: dict) -> dict:
                                        "msg": f"{fmt} three interleaved passes over {chosen}: pass over {split} missing "
                                               f"{list((want - Counter(outcome)).elements())[:4]} unexpected "
                                               f"{list((Counter(outcome) - want).elements())[:4]}"})
+        # ---- two threads share ONE Dataset object and start a pass over the same split at the same moment
+        import threading
+        from sedpack.io import Dataset
+        from sedpack.io.dataset_base import DatasetBase
+        shared = Dataset(dataset.path)
+        split = rng.choice(splits)
+        want = _iter.expected_counter(model, split)
+        barrier = threading.Barrier(2)
+        outcomes: dict = {}
+        original_walk = DatasetBase._shard_info_iterator  # pylint: disable=protected-access
+
+        def slow_walk(self, shard_list_info):
+            import time as _time
+            _time.sleep(0.004)           # widen the window in which the metadata tree is being walked
+            yield from original_walk(self, shard_list_info)
+
+        def reader_thread(name: str, iface: str) -> None:
+            try:
+                barrier.wait()
+                kwargs = {"file_parallelism": 2} if "file_parallelism" in readers.ACCEPTS[iface] else {}
+                outcomes[name] = Counter(dsmod_ids(readers.read(shared, iface, split, shuffle=0, repeat=False, **kwargs)))
+            except BaseException as exc:  # pylint: disable=broad-exception-caught
+                outcomes[name] = f"{type(exc).__name__}: {str(exc)[:160]}"
+
+        thread_ifaces = [i for i in ifaces if i in ("sync", "conc") and not (i == "conc" and fmt == "tfrec")]
+        DatasetBase._shard_info_iterator = slow_walk  # pylint: disable=protected-access
+        try:
+            threads = [threading.Thread(target=reader_thread, args=(f"t{k}", thread_ifaces[k % len(thread_ifaces)]))
+                       for k in range(2)]
+            for thread in threads:
+                thread.start()
+            for thread in threads:
+                thread.join()
+        finally:
+            DatasetBase._shard_info_iterator = original_walk  # pylint: disable=protected-access
+        obs["shared_handle_thread_pairs"] += 1
+        for name, outcome in outcomes.items():
+            if outcome != want:
+                violations.append({"key": "threads-sharing-a-handle-interfere",
+                                   "msg": f"{fmt} split {split}: thread {name} got "
+                                          f"{outcome if isinstance(outcome, str) else sum(outcome.values())} "
+                                          f"instead of {sum(want.values())} examples"})
         return {"sigs": sigs, "sig": None, "nontrivial": bool(sigs), "violations": violations,
                 "obs": {**obs, "completion_orders": [list(o) for o in orders]},
                 "sample": {"fmt": fmt, "splits": {s: sum(model.expected_counter(s).values()) for s in splits},
                            "some_release_orders": [list(o) for o in list(orders)[:3]]}}
     finally:
         common.rm(work)
+
+
+def dsmod_ids(examples) -> list[int]:
+    return [int(ex["id"]) for ex in examples]
 
 
 def overlapping(dataset, iface: str, splits: list[str], rng: random.Random):
